@@ -33,7 +33,15 @@ def check_typestate(run, rule):
             from .. import assembly, minieval
             try:
                 pn_ = "p:%s" % f["params"][0]["n"]
-                npaths = sum(len(assembly.explore(f, pn_, ai_, w_, facts.enums)) for ai_, w_ in ((24, 1), (25, 2), (26, 4), (27, 8)))
+                garr_ = {}
+                for gv_ in facts.vars:
+                    il_ = ir.unwrap_all_casts(gv_.get("init")) if gv_.get("init") is not None else None
+                    if gv_.get("const") and isinstance(il_, dict) and il_.get("k") == "InitList":
+                        vals_ = [ir.const_value(c_) for c_ in il_.get("c", [])]
+                        if vals_ and all(isinstance(x_, int) for x_ in vals_):
+                            garr_[gv_["qn"]] = vals_
+                            garr_[gv_["qn"].split("::")[-1]] = vals_
+                npaths = sum(len(assembly.explore(f, pn_, ai_, w_, facts.enums, arrays=garr_)) for ai_, w_ in ((24, 1), (25, 2), (26, 4), (27, 8)))
                 why_ = "inside the window on each of the %d paths of the read_int tabulation (every split of the argument across refills)" % npaths
                 results = [[r_[0], True, r_[2], why_] if not r_[1] else r_ for r_ in results]
                 ts.moves = [(m_[0], True, m_[2], why_) if not m_[1] else m_ for m_ in ts.moves]
